@@ -27,6 +27,13 @@ def unhx4(h):
     return t.encode("utf-16-le", "surrogatepass").decode("utf-16-le", "surrogatepass")
 
 
+def unhx4_raw(h):
+    """code units as they are (no surrogate combination)"""
+    if h == "-":
+        return ""
+    return "".join(chr(int(h[i:i + 4], 16)) for i in range(0, len(h), 4))
+
+
 def gen_text(r, rich=True, maxlen=6):
     n = r.range(1, maxlen)
     pool = TEXT_CHARS if rich else SAFE_CHARS
